@@ -7,6 +7,7 @@ package main
 
 import (
 	"bytes"
+	"encoding/binary"
 	"encoding/json"
 	"fmt"
 	"io/ioutil"
@@ -232,7 +233,73 @@ func esEntryPoints() map[string][]entryPoint {
 		}},
 	}
 	all := append(append(append(append(append(append(append([]entryPoint{}, sample...), stream...), nalAvc...), nalHevc...), seiEP...), seiPayload...), cfg...)
-	return map[string][]entryPoint{"sample": sample, "stream": stream, "nal-avc": nalAvc, "nal-hevc": nalHevc, "sei-nal": append(append([]entryPoint{}, seiEP...), nalAvc[5], nalHevc[3]),
+	// "ctx" kinds: the input is a length-prefixed NAL unit sequence that brings its own context - parameter sets are
+	// parsed first and every later PPS / slice header / SEI is parsed against what was accepted before it
+	nalsOf := func(b []byte) [][]byte {
+		var out [][]byte
+		for pos := 0; pos+4 <= len(b); {
+			n := int(binary.BigEndian.Uint32(b[pos:]))
+			if n < 0 || pos+4+n > len(b) {
+				break
+			}
+			out = append(out, b[pos+4:pos+4+n])
+			pos += 4 + n
+		}
+		return out
+	}
+	ctxAvc := []entryPoint{{"avc context: SPS, PPS, slice header, SEI in sequence", func(b []byte) {
+		sm, pm := map[uint32]*avc.SPS{}, map[uint32]*avc.PPS{}
+		var last *avc.SPS
+		for _, n := range nalsOf(b) {
+			if len(n) == 0 {
+				continue
+			}
+			switch avc.GetNaluType(n[0]) {
+			case avc.NALU_SPS:
+				if sp, err := avc.ParseSPSNALUnit(n, true); err == nil && sp != nil {
+					sm[uint32(sp.ParameterID)] = sp
+					last = sp
+				}
+			case avc.NALU_PPS:
+				if pp, err := avc.ParsePPSNALUnit(n, sm); err == nil && pp != nil {
+					pm[uint32(pp.PicParameterSetID)] = pp
+				}
+			case avc.NALU_SEI:
+				m, _ := avc.ParseSEINalu(n, last)
+				callSEI(m)
+			default:
+				_, _ = avc.ParseSliceHeader(n, sm, pm)
+			}
+		}
+		_, _ = mp4.GetAVCProtectRanges(sm, pm, b, "cbcs")
+	}}}
+	ctxHevc := []entryPoint{{"hevc context: SPS, PPS, slice header, SEI in sequence", func(b []byte) {
+		sm, pm := map[uint32]*hevc.SPS{}, map[uint32]*hevc.PPS{}
+		var last *hevc.SPS
+		for _, n := range nalsOf(b) {
+			if len(n) < 2 {
+				continue
+			}
+			switch t := hevc.GetNaluType(n[0]); {
+			case t == hevc.NALU_SPS:
+				if sp, err := hevc.ParseSPSNALUnit(n); err == nil && sp != nil {
+					sm[uint32(sp.SpsID)] = sp
+					last = sp
+				}
+			case t == hevc.NALU_PPS:
+				if pp, err := hevc.ParsePPSNALUnit(n, sm); err == nil && pp != nil {
+					pm[pp.PicParameterSetID] = pp
+				}
+			case t == hevc.NALU_SEI_PREFIX || t == hevc.NALU_SEI_SUFFIX:
+				m, _ := hevc.ParseSEINalu(n, last)
+				callSEI(m)
+			case t < 32:
+				_, _ = hevc.ParseSliceHeader(n, sm, pm)
+			}
+		}
+		_, _ = mp4.GetHEVCProtectRanges(sm, pm, b, "cbcs")
+	}}}
+	return map[string][]entryPoint{"sample": sample, "stream": stream, "nal-avc": nalAvc, "nal-hevc": nalHevc, "ctx-avc": ctxAvc, "ctx-hevc": ctxHevc, "sei-nal": append(append([]entryPoint{}, seiEP...), nalAvc[5], nalHevc[3]),
 		"sei-payload": seiPayload, "config": cfg, "any": all}
 }
 
